@@ -67,7 +67,9 @@ def valid_css(rng):
     return w() + case_fuzz(rng, s) + w(), "hsla"
 
 
-NEAR = ["rgb(" + "9" * 320 + "%, 0%, 0%)", "rgb(" + "9" * 320 + ", 0, 0)", "rgba(1,2,3," + "9" * 320 + ")", "hsl(" + "9" * 320 + ",50%,50%)",
+NEAR = ["hsl(120px,50%,50%)", "hsl(1e,50%,50%)", "hsla(0.5turns,100%,50%,1)", "hsl(90grad 50% 50%)", "hsl(0.5turn, 100%, 50%)", "hsl(3.14rad,50%,50%)",
+        "hsla(120deg, 50%, 50%, 0.5)", "hsl(120 deg,50%,50%)", "hsl(120°,50%,50%)", "rgb(1em,2,3)", "rgba(1,2,3,0.5x)",
+        "rgb(" + "9" * 320 + "%, 0%, 0%)", "rgb(" + "9" * 320 + ", 0, 0)", "rgba(1,2,3," + "9" * 320 + ")", "hsl(" + "9" * 320 + ",50%,50%)",
         "hsl(120," + "9" * 320 + "%,50%)", "hsla(120,50%,50%," + "9" * 320 + "%)", "rgb(0." + "0" * 330 + "1%, 0%, 0%)",
         "rgb(", "rgb()", "rgb(1,2)", "rgb(1,2,3", "rgb(1 2 3)", "rgb(1,2,3,4,5)", "rgb(300,0,0)", "rgb(-1,0,0)", "rgb(1e2,0,0)",
         "rgb(50%,50%)", "rgb(1px,2px,3px)", "rgb(1,2,3)garbage", "rgba(1,2,3)", "rgba(1,2,3,2)", "rgba(1,2,3,150)", "rgba(1,2,3,-0.5)",
